@@ -219,6 +219,19 @@ for _p in sorted(glob.glob(os.path.join(os.path.dirname(os.path.abspath(__file__
     VARIANTS["patch:" + os.path.basename(_p)[:-5]] = patch_variant(_p)
 
 
+
+def make_snapshot():
+    """Frozen copy of the checker, so that editing /verif/sa while a long run is in progress
+    does not mix versions.  Removed by the caller."""
+    import shutil
+    import tempfile
+    d = tempfile.mkdtemp(prefix="sa_snap_")
+    shutil.copytree("/verif/sa", os.path.join(d, "sa"), ignore=shutil.ignore_patterns("__pycache__"))
+    for fn in ("known_findings.json", "reviewed_derefs.json", "MANIFEST.json", "properties.jsonl"):
+        shutil.copy("/verif/" + fn, os.path.join(d, fn))
+    return d
+
+
 def sh(cmd, cwd=None, env=None, timeout=900):
     p = subprocess.run(cmd, shell=True, cwd=cwd, env=env, capture_output=True, text=True,
                        timeout=timeout)
@@ -242,7 +255,7 @@ def run_variant(args):
     tests = out.strip()
     alarms = []
     for pid in props:
-        rc, out = sh("/venv/bin/python -m sa.check %s --repo %s" % (pid, wt), cwd="/verif", env=env)
+        rc, out = sh("/venv/bin/python -m sa.check %s --repo %s" % (pid, wt), cwd=os.environ.get("SA_SNAP", "/verif"), env=env)
         if rc != 0:
             lines = [l for l in out.splitlines() if "rule=" in l or l.startswith("ANALYSIS-ERROR")]
             alarms.append("%s(exit %d): %s" % (pid, rc, (lines or ["?"])[0][:230]))
@@ -256,6 +269,8 @@ def main():
     names = sys.argv[1:] or list(VARIANTS)
     nw = min(8, len(names))
     bad = 0
+    snap = make_snapshot()
+    os.environ["SA_SNAP"] = snap
     # one worktree per worker slot; variants are distributed round-robin
     slots = [[] for _ in range(nw)]
     for j, n in enumerate(names):
@@ -275,6 +290,7 @@ def main():
     for i in range(nw):
         sh("git -C /repo worktree remove --force /tmp/benignwt_%d" % i)
         sh("rm -rf /tmp/benign_ev_%d" % i)
+    sh("rm -rf %s" % snap)
     print("variants with alarms or failing tests:", bad, "of", len(names))
     return 1 if bad else 0
 
